@@ -52,7 +52,7 @@ def run_property(prop: str, repo_root: str, tier: str, seed: int, *, write=True,
         rules = list(mod.RULES)
         try:
             from rules._pitfalls_rule import rule as _pitfalls
-            rules.append((f"{prop}-RP", _pitfalls, 9))
+            rules.append((f"{prop}-RP", _pitfalls, 10))
         except ImportError:
             pass
         for rid, func, floor in rules:
@@ -126,7 +126,7 @@ def run_property(prop: str, repo_root: str, tier: str, seed: int, *, write=True,
         out.append(f"  rule={ob.rule} at {ob.loc}: {ob.construct}")
         out.append(f"  {ob.msg}")
     if write:
-        write_evidence(prop, tier, seed, ctx, getattr(mod, "EXPLANATION", "") + f"  Additionally {prop}-RP: shared pitfall lints (shared mutable fill, stale loop carry, mutable default argument, late-binding closure, loop-scoped value read in a later loop, per-call memo keyed too narrowly, ordered result from set iteration order, deepcopy with a memo shared between loop iterations, float quotient truncated to an integer) over the anchored files.", getattr(mod, "RULE_TEXT", ""),
+        write_evidence(prop, tier, seed, ctx, getattr(mod, "EXPLANATION", "") + f"  Additionally {prop}-RP: shared pitfall lints (shared mutable fill, stale loop carry, mutable default argument, late-binding closure, loop-scoped value read in a later loop, per-call memo keyed too narrowly, ordered result from set iteration order, deepcopy with a memo shared between loop iterations, float quotient truncated to an integer, absolute tolerance with an implicit relative one) over the anchored files.", getattr(mod, "RULE_TEXT", ""),
                        COMMON_ASSUMPTIONS + list(getattr(mod, "ASSUMPTIONS", [])), wall,
                        violations if error is None else [], known_hits, extra=extra, error=error,
                        out_dir=evidence_dir)
